@@ -268,6 +268,54 @@ def run(ctx, prop):
                 if valid and any(o != outs_[0] for o in outs_):
                     oracle_fail.append({"case": {"kind": "tree-" + tname, "backend": b}, "failures": [{"error": "debug and release builds (or repeated runs) wrote different bytes for the same file set"}]})
                 distinct.add(("tree-" + tname, b))
+    # ---- struct sizes at the machine word (fix 32d1f86; theorem C16.accepted_sizes_fit): chains of
+    # T[65535] over each primitive width; the model and the real passes must take the same
+    # decision (E1), the debug and the release binary must agree with them, and nothing whose
+    # mathematical size reaches 2^64 may be accepted
+    def size_chain(prim, depth, two=False, tail=None):
+        nodes = [{"k": "struct", "name": "L1", "fields": [{"type": prim, "count": 65535, "name": "a"}]}]
+        for d_ in range(2, depth + 1):
+            nodes.append({"k": "struct", "name": f"L{d_}", "fields": [{"type": f"L{d_ - 1}", "count": 65535, "name": "a"}]})
+        if two:
+            nodes.append({"k": "struct", "name": "Two", "fields": [{"type": f"L{depth}", "count": 1, "name": "a"}, {"type": f"L{depth}", "count": 1, "name": "b"}]})
+        if tail:
+            nodes.append({"k": "struct", "name": "Tail", "fields": [{"type": f"L{depth}", "count": tail, "name": "a"}]})
+        return {"id": f"C16-size-{prim}-{depth}-{int(two)}-{tail}", "files": [{"path": "main.idl", "nodes": nodes}], "main": "main.idl", "incdirs": []}
+    width = {"uint8": 1, "uint16": 2, "uint32": 4, "uint64": 8}
+    fam = []
+    for prim, w in width.items():
+        for depth in (2, 3, 4, 5):
+            fam.append((size_chain(prim, depth), w * 65535 ** depth))
+        fam.append((size_chain(prim, 3, two=True), 2 * w * 65535 ** 3))
+        fam.append((size_chain(prim, 3, tail=65535 // w), (65535 // w) * w * 65535 ** 3))
+        if 65535 // w + 3 <= 65535:
+            fam.append((size_chain(prim, 3, tail=65535 // w + 3), (65535 // w + 3) * w * 65535 ** 3))
+    fam.append((size_chain("uint8", 4, two=True), 2 * 65535 ** 4))
+    hist["size_limit_cases"] = len(fam)
+    for case, math_size in fam:
+        with C.Scratch() as tmp:
+            root = os.path.join(tmp, "src")
+            idl.render_case(case, root)
+            model, impl = E.e1(ctx, case, root)
+            ctx.bump("evaluations")
+            mv, iv = E.verdict_of(model), E.verdict_of(impl)
+            if mv != iv:
+                disagree.append({"case": case, "only_model": model[:2], "only_impl": impl[:2]})
+            rcs = {}
+            for prof in ("debug", "release"):
+                rc, err = run_bin(ctx.idlc[prof], os.path.join(root, "main.idl"), "c", os.path.join(tmp, f"o-{prof}.h"))
+                rcs[prof] = rc
+                ctx.bump("evaluations")
+            fits = math_size < 2 ** 64
+            for prof, rc in rcs.items():
+                crashed = rc == "timeout" or (isinstance(rc, int) and (rc < 0 or rc in (134, 139)))
+                if crashed:
+                    oracle_fail.append({"case": {"kind": "size-limit", "id": case["id"]}, "failures": [{"error": f"{prof} build crashed on a struct of {math_size} bytes", "rc": rc}]})
+                elif (rc == 0) != fits:
+                    oracle_fail.append({"case": {"kind": "size-limit", "id": case["id"]}, "failures": [
+                        {"error": f"{prof} build " + ("refused a struct whose size fits the machine word" if fits else "accepted a struct whose size does not fit the machine word"),
+                         "size": str(math_size), "rc": rc}]})
+            distinct.add(("size-limit", case["id"]))
     known_lines = []
     for kid, k in listed.items():
         if kid in known_seen:
@@ -278,7 +326,8 @@ def run(ctx, prop):
                   rule="valid generated programs (all 6 backends), byte-level mutants of them (delete/insert/overwrite/duplicate/move/boundary "
                        "numerals, structural tokens, invalid UTF-8, NUL), and a fixed list of special inputs (empty, unterminated comment, 200k-char "
                        "identifier, 4000 structs, 3000 methods, array bounds 0/1/65535/65536/2^32/10^20, nesting depth 32, diamond depth 12, size "
-                       "overflow, self-containing struct, 5000 parameters, 5000-digit constants); each run on the debug AND the release binary "
-                       "built from the working tree under ulimit -s 8 MiB, -v 4 GiB and a 10 s limit; exit status, signal, stderr and output "
+                       "overflow, self-containing struct, 5000 parameters, 5000-digit constants), and chains of T[65535] whose sizes straddle 2^64 (model verdict = real "
+                       "passes = debug binary = release binary, nothing of 2^64 bytes or more accepted); each run on the debug AND the release binary "
+                       "built from the working tree under ulimit -s 8 MiB, -v 4 GiB and a 60 s limit; exit status, signal, stderr and output "
                        "bytes compared; distinct = distinct (input kind, backend)",
-                  extra={"engines": ["E4 cli debug+release"], "stated_bounds": "struct nesting depth <= 32 (chain), <= 12 (fan-out 2)"})
+                  extra={"engines": ["E4 cli debug+release", "E1 facts (size-limit family)"], "stated_bounds": "struct nesting depth <= 32 (chain), <= 12 (fan-out 2)"})
